@@ -27,8 +27,15 @@ const (
 	KExtPtr                  // *hb.Xn
 	KVis                     // hc.Yn: declared in a helper package the file imports
 	KVisPtr                  // *hc.Yn
+	KBytes                   // []byte where it is provided, []uint8 where it is consumed (one type, two spellings)
+	KAny                     // interface{} where provided, any where consumed
+	KFuncT                   // func(n int) int where provided, func(int) int where consumed
 	numKinds
 )
+
+// Unnamed reports kinds that are unnamed Go types: two value types of such a
+// kind would be one type, so a flow has at most one of each.
+func (k TKind) Unnamed() bool { return k >= KU64 && k <= KArr || k >= KBytes && k <= KFuncT }
 
 // Spelling of a function expression.
 const (
